@@ -192,7 +192,10 @@ class PathInterp(sym.Interp):
         if name in ("ok_or", "ok_or_else"):
             v = self.ev(n["recv"])
             if isinstance(v, OptVal):
-                return ResVal(v.some, v.payload, self.ev(n["args"][0]))
+                e_ = self.ev(n["args"][0])
+                if name == "ok_or_else" and isinstance(e_, (sym.ClosureVal, sym.FnVal)):
+                    e_ = self.apply_closure(e_, [], n)         # the error is built by a closure (possibly one bound to a local: `let missing = || MissingParameters;`)
+                return ResVal(v.some, v.payload, e_)
         if name == "map_err":
             v = self.ev(n["recv"])
             if isinstance(v, ResVal):
@@ -339,6 +342,21 @@ class PathInterp(sym.Interp):
                         continue
                 return self.ev(a["body"])
             raise sym.Unsupported(n, "match on Option without a matching arm")
+        if isinstance(v, ResVal) and len(n["arms"]) >= 1 and all(a.get("guard") is None for a in n["arms"]):
+            # match on a Result with a known split: the Ok/Err question is decided once, the arm's pattern binds the payload
+            is_ok = self.decide(v.okc)
+            for a in n["arms"]:
+                pat = a["pat"]
+                d = (pat.get("def") or "").split("::")[-1]
+                if pat.get("k") == "PTupleStruct" and d in ("Ok", "Err") and len(pat.get("ps", [])) == 1:
+                    if (d == "Ok") != is_ok:
+                        continue
+                    self.bind(pat["ps"][0], v.ok if is_ok else v.err, n)
+                    return self.ev(a["body"])
+                if pat.get("k") == "Wild":
+                    return self.ev(a["body"])
+                raise sym.Unsupported(n, "match arm pattern on a Result")
+            raise sym.Unsupported(n, "match on a Result without a matching arm")
         if self.is_boolish(v):
             # match on a condition / a tuple of conditions with `true` / `false` / `_` patterns: arms in order, each component decided at most once
             comps = list(v) if isinstance(v, tuple) else [v]
